@@ -64,16 +64,24 @@ class Outcome:
 
 class ExecS(Exec):
     # ------------------------------------------------------------------ merging
-    def merge_states(self, base_pc_len, states):
-        """Merge states that share the first base_pc_len path-condition entries."""
+    def merge_states(self, mark, states):
+        """Merge states that extend a common state (mark = its (len(pc), len(dec)))."""
         if len(states) == 1:
             return states[0]
-        base = states[0].pc[:base_pc_len]
+        mpc, mdec = mark
+        base = states[0].pc[:mpc]
         guards = []
+        facts = []
         for s in states:
-            suf = s.pc[base_pc_len:]
-            guards.append(z3.And(*suf) if len(suf) > 1 else (suf[0] if suf else z3.BoolVal(True)))
-        out = St({}, base + [z3.Or(*guards)])
+            ds = s.dec[mdec:]
+            g = z3.And(*ds) if len(ds) > 1 else (ds[0] if ds else z3.BoolVal(True))
+            guards.append(g)
+            dids = {d.get_id() for d in ds}
+            for f in s.pc[mpc:]:
+                if f.get_id() in dids:
+                    continue
+                facts.append(f if not ds else z3.Implies(g, f))
+        out = St({}, base + [z3.Or(*guards)] + facts, states[0].dec[:mdec])
         memo = {}
         keys = set()
         for s in states:
@@ -114,7 +122,7 @@ class ExecS(Exec):
     # ------------------------------------------------------------------ blocks
     def ex_block(self, stmts, st):
         """Returns a list of Outcome; at most one of kind 'normal' (merged)."""
-        base = len(st.pc)
+        base = st.mark()
         live = st
         out = []
         for s in stmts:
@@ -134,9 +142,9 @@ class ExecS(Exec):
         pend, self.cx.pending = self.cx.pending, []
         for cond, exc in pend:
             r = st.copy()
-            r.pc.append(cond)
+            r.decide(cond)
             outs.append(Outcome("raise", r, exc))
-            st.pc.append(z3.Not(cond))
+            st.decide(z3.Not(cond))
         return outs
 
     # ------------------------------------------------------------------ assignment
@@ -145,7 +153,7 @@ class ExecS(Exec):
             ct = self.cx.ex.ctypes.get((self.cx.ex.qualname, target.id)) if self.cx.ex.ctypes else None
             if ct in INT_CTYPES and self.cx.c.c_int_bits and is_z3(v) and z3.is_int(v):
                 bits = INT_CTYPES[ct]
-                self.oblige(f"c_int_range.{target.id}.L{getattr(node, 'lineno', 0)}", "overflow", st,
+                self.oblige(f"c_int_range.{target.id}", "overflow", st,
                             z3.And(-(2 ** (bits - 1)) <= v, v < 2 ** (bits - 1)), node)
             if ct in ("double", "float") and is_z3(v) and z3.is_int(v):
                 v = z3.ToReal(v)
@@ -185,7 +193,7 @@ class ExecS(Exec):
             idx = self.ev(target.slice, st)
             if isinstance(base, CArr):
                 i = base.off + zint(idx)
-                self.oblige(f"bounds.{base.name}.L{getattr(node, 'lineno', 0)}", "bounds", st,
+                self.oblige(f"bounds.{base.name}", "bounds", st,
                             z3.And(0 <= i, i < base.n), node)
                 if isinstance(base.arr, dict):
                     if not (isinstance(v, ObjV) and v.cls == "__struct__"):
@@ -204,7 +212,7 @@ class ExecS(Exec):
                 self.assign(target.value, h(self, st, base, idx, v, node), st, node)
             elif isinstance(base, SeqV):
                 i = zint(idx)
-                self.oblige(f"index.L{getattr(node, 'lineno', 0)}", "index", st, z3.And(0 <= i, i < base.n), node)
+                self.oblige(f"index", "index", st, z3.And(0 <= i, i < base.n), node)
                 if isinstance(base.elem, api.ObjT):
                     from . import heap
                     oid = fresh("id.upd", I)
@@ -322,12 +330,12 @@ class ExecS(Exec):
             return outs + self.ex_block(s.body, st)
         if z3.is_false(sc):
             return outs + self.ex_block(s.orelse, st)
-        base = len(st.pc)
+        base = st.mark()
         a = st.copy()
-        a.pc.append(c)
+        a.decide(c)
         r1 = self.ex_block(s.body, a)
         bb = st.copy()
-        bb.pc.append(z3.Not(c))
+        bb.decide(z3.Not(c))
         r2 = self.ex_block(s.orelse, bb)
         normals = [o.st for o in r1 + r2 if o.kind == "normal"]
         outs += [o for o in r1 + r2 if o.kind != "normal"]
@@ -367,7 +375,7 @@ class ExecS(Exec):
         st = st.copy()
         c = boolify(self.ev(s.test, st))
         outs = self.split_pending(st, s)
-        self.oblige(f"assert.L{s.lineno}", "assert", st, c, s)
+        self.oblige(f"assert{self.cx.assert_ordinal(s)}", "assert", st, c, s)
         st.pc.append(c)
         return outs + [Outcome("normal", st)]
 
@@ -397,7 +405,7 @@ class ExecS(Exec):
     def s_Try(self, s, st):
         if s.finalbody:
             raise Unsupported(f"try/finally at line {s.lineno}")
-        base = len(st.pc)
+        base = st.mark()
         res = self.ex_block(s.body, st.copy())
         outs = []
         normals = []
@@ -466,12 +474,12 @@ class ExecS(Exec):
 
     def s_If_ghost(self, s, st):
         c = boolify(self.ev(s.test, st, spec=True))
-        base = len(st.pc)
+        base = st.mark()
         a = st.copy()
-        a.pc.append(c)
+        a.decide(c)
         r1 = self.ex_block(s.body, a)
         bb = st.copy()
-        bb.pc.append(z3.Not(c))
+        bb.decide(z3.Not(c))
         r2 = self.ex_block(s.orelse, bb)
         normals = [o.st for o in r1 + r2 if o.kind == "normal"]
         return [Outcome("normal", self.merge_states(base, normals))]
@@ -548,7 +556,7 @@ class ExecS(Exec):
         raise Unsupported(f"iteration over {v!r} at line {getattr(it, 'lineno', '?')}")
 
     def unroll(self, s, st, items):
-        base = len(st.pc)
+        base = st.mark()
         outs = []
         live = st
         exits = []
@@ -560,8 +568,8 @@ class ExecS(Exec):
             skip_st = None
             if not z3.is_true(g):
                 skip_st = live.copy()
-                skip_st.pc.append(z3.Not(g))
-                body_st.pc.append(g)
+                skip_st.decide(z3.Not(g))
+                body_st.decide(g)
             self.assign(s.target, item, body_st, s)
             res = self.ex_block(s.body, body_st)
             cont = [o.st for o in res if o.kind in ("normal", "continue")]
@@ -636,7 +644,7 @@ class ExecS(Exec):
     def ex_loop(self, s, st, iterinfo):
         no, invs = self.loop_spec(s)
         st = st.copy()
-        base = len(st.pc)
+        base = st.mark()
         tgt = nx = None
         if iterinfo is not None:
             kind, seq = iterinfo
@@ -702,10 +710,10 @@ class ExecS(Exec):
             g = boolify(self.ev(s.test, h))
             outs += self.split_pending(h, s)
         ex_ = h.copy()
-        ex_.pc.append(z3.Not(g))
+        ex_.decide(z3.Not(g))
         results.append(ex_)
         b_ = h.copy()
-        b_.pc.append(g)
+        b_.decide(g)
         if iterinfo is not None:
             bind(b_)
         self.cx.covers.append((f"loop{no}.body", list(b_.pc)))
